@@ -7,6 +7,8 @@ import (
 	"strconv"
 	"strings"
 
+	"github.com/opencontainers/go-digest"
+	ocispec "github.com/opencontainers/image-spec/specs-go/v1"
 	"verifharness/common"
 	"verifharness/dag"
 )
@@ -45,7 +47,10 @@ func Generate(genseed uint64, stream string, thorough bool) *Case {
 			break
 		}
 	}
-	c := &Case{Stream: stream, Graph: g.Encode(), MapRoot: -1, FailNode: -1, GenSeed: genseed, Seed: r.U64()}
+	if stream != "twin" && r.Chance(1, 4) {
+		addBlobTwin(r, g)
+	}
+	c := &Case{Stream: stream, Graph: g.Encode(), MapRoot: -1, FailNode: -1, GenSeed: genseed, Seed: r.U64(), Thorough: thorough}
 
 	var manifests, nonforeign []int
 	for _, n := range g.Nodes {
@@ -170,6 +175,75 @@ func Generate(genseed uint64, stream string, thorough bool) *Case {
 	}
 	sort.Ints(c.D0)
 	return c
+}
+
+// addBlobTwin appends a blob with the bytes of an existing blob under another
+// (non-manifest) media type, one or two image manifests that use it as a layer
+// and sometimes an index over them: "same bytes under two media types" inside
+// the mt_consistent region (both descriptors are leaves).
+func addBlobTwin(r *common.Rand, g *dag.Graph) {
+	var blobs, manifests []int
+	for _, n := range g.Nodes {
+		if (n.Kind == dag.KBlob || n.Kind == dag.KConfig) && len(n.Bytes) > 0 {
+			blobs = append(blobs, n.ID)
+		}
+		if n.IsManifest() {
+			manifests = append(manifests, n.ID)
+		}
+	}
+	if len(blobs) == 0 {
+		return
+	}
+	b := g.Nodes[common.Pick(r, blobs)]
+	mt := "application/vnd.verif.alt.layer"
+	if b.Desc.MediaType == mt {
+		return
+	}
+	desc := func(mt string, bs []byte) ocispec.Descriptor {
+		return ocispec.Descriptor{MediaType: mt, Digest: digest.FromBytes(bs), Size: int64(len(bs))}
+	}
+	t := &dag.Node{ID: len(g.Nodes), Kind: dag.KBlob, Bytes: b.Bytes, Desc: desc(mt, b.Bytes), Subject: -1, TwinOf: -1}
+	g.Nodes = append(g.Nodes, t)
+	var added []int
+	for k := 0; k < 1+r.Intn(2); k++ {
+		cfg := g.Nodes[common.Pick(r, blobs)]
+		m := ocispec.Manifest{MediaType: ocispec.MediaTypeImageManifest, Config: cfg.Desc}
+		m.SchemaVersion = 2
+		nd := &dag.Node{ID: len(g.Nodes), Kind: dag.KImage, Subject: -1, TwinOf: -1, Succ: []int{cfg.ID}}
+		layers := []int{t.ID}
+		if r.Bool() {
+			layers = append(layers, b.ID) // both media types in one manifest
+		}
+		if r.Bool() {
+			layers = append([]int{common.Pick(r, blobs)}, layers...)
+		}
+		for _, l := range layers {
+			m.Layers = append(m.Layers, g.Nodes[l].Desc)
+			nd.Succ = append(nd.Succ, l)
+		}
+		m.Annotations = map[string]string{"verif.twin": fmt.Sprint(k, r.U64())}
+		nd.Annotations = m.Annotations
+		bs, _ := json.Marshal(m)
+		nd.Bytes, nd.Desc = bs, desc(m.MediaType, bs)
+		g.Nodes = append(g.Nodes, nd)
+		added = append(added, nd.ID)
+	}
+	if r.Bool() {
+		ix := ocispec.Index{MediaType: ocispec.MediaTypeImageIndex}
+		ix.SchemaVersion = 2
+		nd := &dag.Node{ID: len(g.Nodes), Kind: dag.KIndex, Subject: -1, TwinOf: -1}
+		members := append([]int(nil), added...)
+		if len(manifests) > 0 {
+			members = append(members, common.Pick(r, manifests))
+		}
+		for _, mm := range members {
+			ix.Manifests = append(ix.Manifests, g.Nodes[mm].Desc)
+			nd.Succ = append(nd.Succ, mm)
+		}
+		bs, _ := json.Marshal(ix)
+		nd.Bytes, nd.Desc = bs, desc(ix.MediaType, bs)
+		g.Nodes = append(g.Nodes, nd)
+	}
 }
 
 // FromReplay rebuilds the cases of a replay file: either {"case": <Case JSON>} or
